@@ -248,8 +248,10 @@ def _validate_set_match(target: list | tuple, actual: list | tuple) -> ResourceM
         )
 
     try:
-        target_set = set(target)
-        actual_set = set(actual)
+        # bool is an int in Python (True == 1, same hash): keep them apart, as
+        # the scalar comparison in validate_match does.
+        target_set = {(isinstance(value, bool), value) for value in target}
+        actual_set = {(isinstance(value, bool), value) for value in actual}
     except TypeError as err:
         if "dict" in f"{err}":
             return ResourceMatch(
@@ -273,10 +275,10 @@ def _validate_set_match(target: list | tuple, actual: list | tuple) -> ResourceM
     if not (missing_values or unexpected_values):
         return ResourceMatch(match=True, differences=())
 
-    for missing_value in missing_values:
+    for _, missing_value in missing_values:
         return ResourceMatch(match=False, differences=(f"<missing '{missing_value}'>",))
 
-    for unexpected_value in unexpected_values:
+    for _, unexpected_value in unexpected_values:
         return ResourceMatch(
             match=False, differences=(f"<unexpectedly found '{unexpected_value}'>",)
         )
